@@ -489,7 +489,7 @@ class Batch:
 
 
 def check_one(rep, batch, vidx, kind, shape, inds, meta, sem=None, subtypes_all=None,
-              sc_els=None, sc_shape=None, internal_only=False):
+              sc_els=None, sc_shape=None, internal_only=False, use_internal=True):
     """run the three forms of one shape on one point array; queue the model comparison;
     compare with the oracle.  Returns False when a violation was reported.
 
@@ -497,7 +497,10 @@ def check_one(rep, batch, vidx, kind, shape, inds, meta, sem=None, subtypes_all=
     a fresh zero-offset buffer.  The shape's own internal buffers are exported as well when
     that is possible; when they differ from the public rebuild an extra, internal case is
     queued whose disagreement alone is counted, never reported.  internal_only: the shape is
-    outside the quantifier and only the internal comparison is meaningful."""
+    outside the quantifier and only the internal comparison is meaningful.
+    meta['model_coords'] (c02_mixed.py): the public coordinates scaled by a power of two to
+    integers -- what the model and the oracle (sem, v.pts: scaled alike) work on; the internal
+    buffers are not looked at then (use_internal=False)."""
     v = batch.variants[vidx]
     ok = True
     res = impl_three_forms(v, shape, v.els if sc_els is None else sc_els,
@@ -527,8 +530,9 @@ def check_one(rep, batch, vidx, kind, shape, inds, meta, sem=None, subtypes_all=
                 i = bad[0] if bad else -1
                 what = 'length' if not bad else 'missing' if v.pts[i] is None else \
                     'inside' if orow[i] else 'outside'
+                shown = (meta['points_exact'][i] if 'points_exact' in meta else v.pts[i]) if bad else None
                 rep.violation(f'oracle:{kind}:{what}',
-                              f'{kind}: point {v.pts[i] if bad else None} is {what} by exact arithmetic, '
+                              f'{kind}: point {shown} is {what} by exact arithmetic, '
                               f'intersects says {got[i] if bad else got}',
                               {**meta, 'point_index': i, 'point': v.pts[i] if bad else None,
                                'oracle': orow, 'impl': res})
@@ -538,12 +542,13 @@ def check_one(rep, batch, vidx, kind, shape, inds, meta, sem=None, subtypes_all=
                           {**meta, 'impl': res})
             ok = False
     expected = Some((enc_out(res['arr']), enc_out(res['inds']), enc_scalars(res['scalars']), True))
-    pub = U.wire_from_coords(kind, meta['coords'])
-    try:
-        internal = U.wire_shape(kind, shape)
-    except Exception:  # noqa: BLE001  (attribute renamed, layout changed, ...)
-        internal = None
-        rep.count('internal-unavailable:scalar-shape-buffers')
+    pub = U.wire_from_coords(kind, meta.get('model_coords', meta['coords']))
+    internal = None
+    if use_internal:
+        try:
+            internal = U.wire_shape(kind, shape)
+        except Exception:  # noqa: BLE001  (attribute renamed, layout changed, ...)
+            rep.count('internal-unavailable:scalar-shape-buffers')
     pub_index = None
     if not internal_only:
         pub_index = len(batch.cases)
@@ -744,6 +749,7 @@ def run(rep):
         rep.count('arrow_scalar_offset' if sem else 'degenerate:arrow_scalar_offset_0level')
     flush(rep, batch)
     inds_forms_section(rep, tier)
+    mixed_subtypes(rep, tier)
     rep.extra['point_shape_pairs'] = pairs
     rep.extra['model_cases'] = len(batch.cases)
     rep.extra['point_buffers_source'] = {v.name: v.rec_source for v in variants}
@@ -859,6 +865,27 @@ def _intify(coords):
     return int(round(coords))
 
 
+def tuplify(x):
+    """nested lists read back from JSON -> vertices as tuples"""
+    return tuple(x) if x and not isinstance(x[0], list) else [tuplify(y) for y in x]
+
+
+def mixed_subtypes(rep, tier):
+    """the point array and the shape in DIFFERENT coordinate subtypes, values that coincide only
+    after rounding to the narrower one: harness/c02_mixed.py"""
+    try:
+        from . import c02_mixed
+        c02_mixed.mixed_subtypes_section(rep, tier)
+    except C.ModelUnavailable:
+        raise
+    except Exception as e:  # noqa: BLE001
+        import traceback
+        rep.violation('mixed-subtypes-harness-error',
+                      f'the mixed-subtypes section could not run: {type(e).__name__} {e}',
+                      {'family': 'mixed-subtypes', 'probe': 'harness-error',
+                       'error': traceback.format_exc()[-1500:]})
+
+
 def run_float_model(rep):
     """the binary64 model (Model/FloatKernels.v: segment_intersects_point,
     point_intersects_polygon) against the real kernels on arbitrary float64 inputs; on the
@@ -879,6 +906,13 @@ def replay(rep, rp):
     if rp.get('float_kernel'):
         from . import cfloat_util
         return cfloat_util.replay(rep, rp)
+    if rp.get('family') == 'mixed-subtypes':
+        from . import c02_mixed
+        if rp.get('probe') == 'harness-error':
+            print(rp.get('error'))
+            c02_mixed.mixed_subtypes_section(rep, 'quick')
+            return not rep.violations
+        return c02_mixed.replay(rep, rp)
     if rp.get('family') == 'inds-forms':
         # the section is deterministic given the seed: run it again
         inds_forms_section(rep, 'quick' if rp.get('subtype') == 'float64' else 'thorough')
@@ -896,9 +930,7 @@ def replay(rep, rp):
         shape = U.make_shape(kind, rp['coords'], rp['route'])
     sem = rp.get('sem')
     if sem is not None:
-        def tup(x):
-            return tuple(x) if x and not isinstance(x[0], list) else [tup(y) for y in x]
-        sem = tup(sem)
+        sem = tuplify(sem)
     meta = {'kind': kind, 'coords': rp['coords'], 'route': rp.get('route'), 'variant': rp['variant'],
             'inds': rp['inds']}
     ok = check_one(rep, batch, vidx, kind, shape, rp['inds'], meta, sem=sem,
